@@ -71,7 +71,9 @@ Duties == {"aggregateattestation", "attestation", "beaconcommitteesubscription",
 NodeStrategies == {"attestationdata", "aggregateattestation", "beaconblockproposal",
                    "synccommitteecontribution", "beaconblockroot", "signedbeaconblock", "beaconblockheader"}
 Strategies == NodeStrategies \cup {"builderbid"}
-Modules == {"scheduler", "graffiti", "majordomo", "signer", "validatorsmanager", "cache"}
+\* modules with a documented configuration path of their own ("Module levels": <module>.log-level)
+SigningModules == {"beaconblockproposer", "attester", "attestationaggregator", "beaconcommitteesubscriber"}
+Modules == {"scheduler", "graffiti", "majordomo", "signer", "validatorsmanager", "cache"} \cup SigningModules
 \* "attestingnodes": util.BeaconNodeAddressesForAttesting(), the nodes whose events drive the controller - "the events
 \* provider for the controller should only use beacon nodes that are used for attestation data" (main.go): the
 \* addresses of the attestation data implementation that runs, the top-level ones when that is the simple one
@@ -142,6 +144,8 @@ Uses(s, i) ==
       [] s = "majordomo" /\ i = "standard" -> Std({"log-level"}, <<"majordomo">>)
       [] s = "majordomo" /\ i \in {"direct", "file", "http"} -> Std({"log-level"}, <<"majordomo", "confidants", i>>)
       [] s \in {"signer", "validatorsmanager"} /\ i = "standard" -> Std({"log-level"}, <<s>>)
+      [] s \in {"attester", "beaconcommitteesubscriber"} /\ i = "standard" -> Std({"log-level", "process-concurrency"}, <<s>>)
+      [] s \in {"beaconblockproposer", "attestationaggregator"} /\ i = "standard" -> Std({"log-level"}, <<s>>)
       [] OTHER -> {}
 
 UseNames(s, i) == {x.u : x \in Uses(s, i)}
